@@ -90,6 +90,7 @@ def run(e: Engine, rep: Report):
              'recipient')
     n9(e, rep)
     n10(e, rep)
+    n11(e, rep)
     rep.floor('N1', 9, 'relay implementations / set sites')
     rep.floor('N2', 12, 'client command sites')
 
@@ -1492,3 +1493,87 @@ def n10(e: Engine, rep: Report, rule: str = 'N10'):
                   'error) does not reach the queue' % (
                       ast.unparse(v) if v is not None else None),
                   loc=r.loc(), reason='return <AsyncResult>.get()')
+
+
+# -------------------------------------------------------------------- N11
+# conversions of peer- / sender-supplied text that raise on some inputs
+# (what they raise is a ValueError subclass unless noted)
+TEXT_RAISES = {
+    'encode': ['builtins.UnicodeError'],
+    'decode': ['builtins.UnicodeError'],
+    'int': ['builtins.ValueError'],
+    'float': ['builtins.ValueError'],
+    'ip_address': ['builtins.ValueError'],
+    'inet_pton': ['builtins.OSError', 'builtins.ValueError'],
+    'inet_aton': ['builtins.OSError'],
+    'b64decode': ['builtins.ValueError'],
+    'unhexlify': ['builtins.ValueError'],
+    'loads': ['builtins.ValueError'],
+}
+LENIENT_ERRORS = {'replace', 'ignore', 'xmlcharrefreplace',
+                  'backslashreplace', 'surrogateescape', 'namereplace'}
+TOTAL_CODECS = {'utf-8', 'utf8', 'utf_8', 'latin-1', 'latin1', 'iso-8859-1'}
+
+
+def n11(e: Engine, rep: Report, rule: str = 'N11'):
+    """attempt() of a relay that computes on recipient text before it talks
+    to anybody (the MX relay: domain extraction, lookup keys) lets no
+    text-conversion error escape: whatever a recipient address looks like,
+    the outcome is a relay error."""
+    rep.rule(rule, 'no text-conversion exception (table TEXT_RAISES) leaves '
+             'MxSmtpRelay.attempt: a malformed recipient domain ends in a '
+             'relay error, not in another exception type')
+    rep.tables.add('c11.TEXT_RAISES')
+    ctx = e.method_ctx('slimta.relay.smtp.mx.MxSmtpRelay', 'attempt')
+
+    def raises(b, n, r):
+        if n.kind != 'call':
+            return set()
+        if r is not None and r.targets:
+            return set()
+        nm = e.call_name(n)
+        toks = TEXT_RAISES.get(nm)
+        if not toks:
+            return set()
+        if nm in ('encode', 'decode'):
+            # str.encode to a total codec / with a lenient error handler
+            args = list(n.ast.args)
+            kw = {k.arg: k.value for k in n.ast.keywords}
+            enc = args[0] if args else kw.get('encoding')
+            err = args[1] if len(args) > 1 else kw.get('errors')
+            if isinstance(err, ast.Constant) and err.value in LENIENT_ERRORS:
+                return set()
+            if nm == 'encode' and (enc is None or (
+                    isinstance(enc, ast.Constant) and
+                    str(enc.value).lower() in TOTAL_CODECS)):
+                return set()
+        if nm in ('int', 'float') and not isinstance(n.ast.func, ast.Name):
+            return set()
+        return set(toks)
+    g = e.build(ctx, inline=e.inline_same_self(), raises=raises, max_depth=4)
+    where = ctx.func.qname
+    rep.functions.add(where)
+    reach = dataflow.reachable(g)
+    escaping = {}
+    for n in g.nodes:
+        if n.id not in reach:
+            continue
+        for l, s2 in n.succ:
+            if s2 is g.raise_exit and isinstance(l, tuple) and \
+                    n.kind == 'call' and l[1] in sum(TEXT_RAISES.values(),
+                                                     []):
+                escaping.setdefault(l[1], n)
+    rep.evaluations += 1
+    if not escaping:
+        rep.ok(rule, where, 'no text-conversion error escapes',
+               reason='every raising conversion on the way is handled',
+               loc=ctx.func.loc())
+    for t, n in sorted(escaping.items()):
+        pth = dataflow.find_path(g, g.entry, lambda x: x is n)
+        rep.bad(rule, where, '%s leaves attempt()' % t.rpartition('.')[2],
+                '`%s` raises %s for some recipient domains (empty label, '
+                'label over 63 characters, ...) and no arm turns it into a '
+                'relay error: the queue sees an unexpected exception and '
+                'retries a message that can never be delivered, instead of '
+                'bouncing it' % (n.text(50), t), loc=n.loc(),
+                witness=dataflow.render_path(pth, 12) if pth else None)
